@@ -1044,6 +1044,9 @@ func (c *Ctx) RuleFsTarget(commands []string) *Result {
 func (c *Ctx) readBeforeWrite(ws *writeSite) string {
 	for _, w := range c.writeContexts(ws) {
 		if dominatingRead(w.fn, w.pathV, w.site) == nil {
+			if c.callersReadFirst(w.fn, w.pathV) {
+				continue
+			}
 			return fmt.Sprintf("the written path is not the path of a read that dominates the write (looked in %s): the command could create a file instead of rewriting one", load.FnName(w.fn))
 		}
 	}
@@ -1912,4 +1915,25 @@ func flagValuesIn(vals map[ssa.Value]bool, fn *ssa.Function) []ssa.Value {
 		}
 	}
 	return out
+}
+
+// callersReadFirst: pathV is a parameter of fn and every caller reads the file it
+// names (os.ReadFile / os.Open, directly or in a helper) before it calls fn.
+func (c *Ctx) callersReadFirst(fn *ssa.Function, pathV ssa.Value) bool {
+	pi := paramIndex(fn, pathV)
+	if pi < 0 {
+		return false
+	}
+	n := 0
+	for _, e := range c.Graph().In[fn] {
+		cc := callCommon(e.Site)
+		if cc == nil || staticFn(cc) != fn || pi >= len(cc.Args) {
+			continue
+		}
+		n++
+		if dominatingRead(e.Caller, cc.Args[pi], e.Site) == nil {
+			return false
+		}
+	}
+	return n > 0
 }
